@@ -46,6 +46,8 @@ pub struct Gen<'a> {
     /// ConstantBuffer<S> globals: only their members can be read
     cb_structs: Vec<(String, usize)>,
     mutable_globals: Vec<(Vec<String>, Ty)>,
+    /// the executable subset: no semantics or interpolation modifiers
+    pub pure: bool,
 }
 
 pub fn sc_name(s: Sc) -> &'static str { match s { Sc::B => "bool", Sc::I => "int", Sc::U => "uint", Sc::F => "float" } }
@@ -56,7 +58,7 @@ const SWZ_C: [&str; 4] = ["r", "g", "b", "a"];
 impl<'a> Gen<'a> {
     pub fn new(rng: &'a mut Rng) -> Self {
         Gen { rng, scope: vec![], globals: vec![], funcs: vec![], structs: vec![], enums: vec![], res: vec![], locals: vec![], counter: 0,
-              entry_points: vec![], used_regs: vec![], this_fields: vec![], struct_templates: false, cb_structs: vec![], mutable_globals: vec![] }
+              entry_points: vec![], used_regs: vec![], this_fields: vec![], struct_templates: false, cb_structs: vec![], mutable_globals: vec![], pure: false }
     }
 
     fn fresh(&mut self, stem: &str) -> String { self.counter += 1; format!("{}{}", stem, self.counter) }
@@ -667,8 +669,8 @@ impl<'a> Gen<'a> {
         for i in 0..nf {
             let t = if self.rng.chance(1, 8) { self.any_ty() } else { self.num_ty() };
             let fname = format!("m{}", i);
-            let interp = if self.rng.chance(1, 12) { *self.rng.pick(&["nointerpolation ", "linear ", "centroid ", "noperspective "]) } else { "" };
-            let sem = if self.rng.chance(1, 8) { format!(" : TEXCOORD{}", i) } else { String::new() };
+            let interp = if !self.pure && self.rng.chance(1, 12) { *self.rng.pick(&["nointerpolation ", "linear ", "centroid ", "noperspective "]) } else { "" };
+            let sem = if !self.pure && self.rng.chance(1, 8) { format!(" : TEXCOORD{}", i) } else { String::new() };
             if self.rng.chance(1, 10) { if let Ty::V(_, 1) = t { body += &format!("{}    {} a{}[2];\n", ind, self.ty_name(&t), i); } }
             body += &format!("{}    {}{} {}{};\n", ind, interp, self.ty_name(&t), fname, sem);
             fields.push((fname, t));
@@ -999,5 +1001,6 @@ pub fn generate(seed: u64, size: u32) -> String {
 pub fn generate_pure(seed: u64, size: u32) -> String {
     let mut rng = Rng::new(seed);
     let mut g = Gen::new(&mut rng);
+    g.pure = true;
     g.program_pure(size)
 }
